@@ -150,17 +150,28 @@ class ArgumentGenerator:
 
     def _generate_return_arg_value(
         self, name: str, used_custom_scalar: Optional[str]
-    ) -> Union[ast.Call, ast.Name]:
+    ) -> Union[ast.Call, ast.Name, ast.IfExp]:
         """Generates the return argument value."""
-        return_arg_dict_value: Union[ast.Call, ast.Name] = generate_name(name)
+        return_arg_dict_value: Union[ast.Call, ast.Name, ast.IfExp] = generate_name(
+            name
+        )
 
         if used_custom_scalar:
             self._used_custom_scalars.append(used_custom_scalar)
             scalar_data = self.custom_scalars[used_custom_scalar]
             if scalar_data.serialize_name:
-                return_arg_dict_value = generate_call(
-                    func=generate_name(scalar_data.serialize_name),
-                    args=[generate_name(name)],
+                # None means "argument not given": it must stay None to be cleared
+                return_arg_dict_value = ast.IfExp(
+                    test=ast.Compare(
+                        left=generate_name(name),
+                        ops=[ast.IsNot()],
+                        comparators=[generate_constant(None)],
+                    ),
+                    body=generate_call(
+                        func=generate_name(scalar_data.serialize_name),
+                        args=[generate_name(name)],
+                    ),
+                    orelse=generate_constant(None),
                 )
 
         return return_arg_dict_value
